@@ -171,7 +171,7 @@ def run(ctx):
     ctx.cov['native_stress'] = dict(st_tot, configs=len(stress), ms_each=ms)
     ctx.cov['evaluations'] += len(stress)
     ctx.phase('stress')
-    n = 300 if ctx.quick else 12000
+    n = 240 if ctx.quick else 12000
     probes = probe_cases()
     cases = [RACE_A, RACE_B] + probes + [gen_case(r) for _ in range(n)]
     outs = ls_common.run_cases(exe, [line_of(c) for c in cases])
